@@ -18,6 +18,7 @@ import (
 	"github.com/janelia-flyem/dvid/server"
 
 	"verif/harness/dv"
+	"verif/harness/dvh"
 	"verif/harness/lib"
 )
 
@@ -51,6 +52,7 @@ type History struct {
 	Pts    [][3]int `json:"pts"`
 	Extra  []uint64 `json:"extra"` // never-used labels that are queried as well
 	Cache  bool     `json:"cache,omitempty"` // run with the label-index cache on (server cache "labelmap")
+	Child  bool     `json:"child,omitempty"` // run against a child server process (restarts are real process restarts)
 }
 
 // Result of one executed op.
@@ -93,9 +95,16 @@ func (e *Exec) addUni(ls ...uint64) {
 var repoCounter int
 
 func newExec(h *History) (*Exec, error) {
-	openStore(h.Cache)
+	if h.Child {
+		if err := startChild(); err != nil {
+			return nil, err
+		}
+	} else {
+		stopChild()
+		openStore(h.Cache)
+	}
 	repoCounter++
-	root, err := dv.NewRepo(fmt.Sprintf("c08-%d", repoCounter))
+	root, err := newRepo(fmt.Sprintf("c08-%d", repoCounter))
 	if err != nil {
 		return nil, err
 	}
@@ -104,7 +113,7 @@ func newExec(h *History) (*Exec, error) {
 	if h.G.Lo {
 		cfg["MaxDownresLevel"] = "1"
 	}
-	if err := dv.NewInstance(root, "labelmap", inst, cfg); err != nil {
+	if err := newInstance(root, "labelmap", inst, cfg); err != nil {
 		return nil, err
 	}
 	e := &Exec{h: h, srv: Srv{h.G}, uuids: []string{root}, parent: []int{-1}, locked: []bool{false}, inUni: map[uint64]bool{}, last: map[int]*Snap{}, quiet: map[int]bool{}}
@@ -117,6 +126,12 @@ func newExec(h *History) (*Exec, error) {
 }
 
 func (e *Exec) settle() {
+	if tr.p != nil {
+		// no handle on the child's update counters: its histories only ingest by POST blocks (which
+		// returns after indexing) and then change mappings; leave the background goroutines a moment
+		tr.p.Sleep(40)
+		return
+	}
 	datastore.BlockOnUpdating(dvid.UUID(e.uuids[0]), inst)
 }
 
@@ -156,7 +171,7 @@ func (e *Exec) do(op Op) Resp {
 			if s.g.Lo {
 				u += "?downres=true" // without it the client has to post every scale itself
 			}
-			r := respOf(dv.Post(u, body))
+			r := respOf(tr.Post(u, body))
 			e.settle()
 			return r
 		case "raw":
@@ -175,7 +190,7 @@ func (e *Exec) do(op Op) Resp {
 			if err != nil {
 				return Resp{Msg: err.Error()}
 			}
-			r := respOf(dv.Post(s.url(uuid, "ingest-supervoxels"), body))
+			r := respOf(tr.Post(s.url(uuid, "ingest-supervoxels"), body))
 			if !r.OK {
 				return r
 			}
@@ -210,16 +225,16 @@ func (e *Exec) do(op Op) Resp {
 			if err != nil {
 				return Resp{Msg: err.Error()}
 			}
-			if r = respOf(dv.Post(s.url(uuid, "indices"), ib)); !r.OK {
+			if r = respOf(tr.Post(s.url(uuid, "indices"), ib)); !r.OK {
 				return r
 			}
 			if len(groups) > 0 {
 				mb, _ := mappingsBody(groups)
-				if r = respOf(dv.Post(s.url(uuid, "mappings"), mb)); !r.OK {
+				if r = respOf(tr.Post(s.url(uuid, "mappings"), mb)); !r.OK {
 					return r
 				}
 			}
-			r = respOf(dv.Post(s.url(uuid, fmt.Sprintf("maxlabel/%d", op.MaxL)), nil))
+			r = respOf(tr.Post(s.url(uuid, fmt.Sprintf("maxlabel/%d", op.MaxL)), nil))
 			e.settle()
 			return r
 		}
@@ -232,10 +247,10 @@ func (e *Exec) do(op Op) Resp {
 		e.settle()
 		return r
 	case "merge":
-		r := respOf(dv.Post(s.url(uuid, "merge"), u64json(append([]uint64{op.Target}, op.Labels...))))
+		r := respOf(tr.Post(s.url(uuid, "merge"), u64json(append([]uint64{op.Target}, op.Labels...))))
 		return r
 	case "cleave":
-		dr := dv.Post(s.url(uuid, fmt.Sprintf("cleave/%d", op.Target)), u64json(op.Labels))
+		dr := tr.Post(s.url(uuid, fmt.Sprintf("cleave/%d", op.Target)), u64json(op.Labels))
 		r := respOf(dr)
 		if r.OK {
 			if l, ok := jsonNum(dr.Body, "CleavedLabel"); ok {
@@ -257,7 +272,7 @@ func (e *Exec) do(op Op) Resp {
 		if len(q) > 0 {
 			u += "?" + strings.Join(q, "&")
 		}
-		dr := dv.Post(u, s.rleBody(op.Runs))
+		dr := tr.Post(u, s.rleBody(op.Runs))
 		r := respOf(dr)
 		if r.OK {
 			a, ok1 := jsonNum(dr.Body, "SplitSupervoxel")
@@ -271,6 +286,9 @@ func (e *Exec) do(op Op) Resp {
 		e.settle()
 		return r
 	case "split":
+		if tr.p != nil {
+			return Resp{Msg: "body split is not available on a child server"}
+		}
 		// the HTTP route is switched off by default (server.AllowLabelmapSplit); call the exported method
 		d, err := labelmap.GetByUUIDName(dvid.UUID(uuid), inst)
 		if err != nil {
@@ -295,9 +313,23 @@ func (e *Exec) do(op Op) Resp {
 		e.settle()
 		return r
 	case "renumber":
-		return respOf(dv.Post(s.url(uuid, "renumber"), u64json([]uint64{op.New, op.Old})))
+		return respOf(tr.Post(s.url(uuid, "renumber"), u64json([]uint64{op.New, op.Old})))
+	case "restart":
+		if err := restartChild(); err != nil {
+			return Resp{Msg: err.Error()}
+		}
+		if os.Getenv("C08_COLD_READS") == "" {
+			// One sequential request per version, leaves first, so that the new process has read a
+			// version's mapping log before the snapshot's multi-block reads start.  Without it the
+			// first mapped GET blocks after a restart races with the loading of the mapping
+			// (repo_patches/C08-10-fix); set C08_COLD_READS=1 to see that.
+			for v := len(e.uuids) - 1; v >= 0; v-- {
+				tr.Do("GET", s.url(e.uuids[v], "mapping"), []byte("[1]"))
+			}
+		}
+		return Resp{OK: true, Status: 200}
 	case "commit":
-		r := respOf(dv.Commit(uuid))
+		r := respOf(commitNode(uuid))
 		if r.OK {
 			e.locked[op.V] = true
 		}
@@ -307,7 +339,7 @@ func (e *Exec) do(op Op) Resp {
 		for _, o := range op.Labels {
 			ps = append(ps, e.uuids[int(o)])
 		}
-		child, dr := dv.Merge(ps)
+		child, dr := mergeNodes(ps)
 		r := respOf(dr)
 		if r.OK && child != "" {
 			e.uuids = append(e.uuids, child)
@@ -321,9 +353,9 @@ func (e *Exec) do(op Op) Resp {
 		var child string
 		var dr dv.Resp
 		if op.K == "newversion" {
-			child, dr = dv.NewVersion(uuid)
+			child, dr = newVersion(uuid)
 		} else {
-			child, dr = dv.Branch(uuid, fmt.Sprintf("br%d", op.Child))
+			child, dr = branchNode(uuid, fmt.Sprintf("br%d", op.Child))
 		}
 		r := respOf(dr)
 		if r.OK && child != "" {
@@ -409,6 +441,12 @@ func (e *Exec) step(op Op) {
 		for v := range e.uuids {
 			addV(v)
 		}
+	case "restart":
+		// leaves first: the new process then builds a version's in-memory state before that of
+		// its ancestors
+		for v := len(e.uuids) - 1; v >= 0; v-- {
+			addV(v)
+		}
 	case "newversion", "branch", "dagmerge":
 		if r.OK {
 			if op.Quiet {
@@ -436,7 +474,7 @@ func (e *Exec) step(op Op) {
 			addV(e.parent[op.V])
 		}
 	}
-	if op.K != "observe" && !op.Quiet && len(e.uuids) > 1 {
+	if op.K != "observe" && op.K != "restart" && !op.Quiet && len(e.uuids) > 1 && !e.h.Child {
 		for k := 0; k < len(e.uuids); k++ {
 			if o := (len(e.steps) + k) % len(e.uuids); !e.quiet[o] {
 				addV(o)
@@ -444,7 +482,7 @@ func (e *Exec) step(op Op) {
 			}
 		}
 	}
-	if op.K == "observe" {
+	if op.K == "observe" || op.K == "restart" {
 		for v := range e.uuids {
 			e.quiet[v] = false
 		}
@@ -480,7 +518,7 @@ func (e *Exec) probe() []string {
 				p = prev[a]
 			}
 			if p != nil {
-				operated := k == 0 && st.Op.K != "commit" && st.Op.K != "newversion" && st.Op.K != "branch" && st.Resp.OK
+				operated := k == 0 && st.Op.K != "commit" && st.Op.K != "newversion" && st.Op.K != "branch" && st.Op.K != "observe" && st.Op.K != "restart" && st.Resp.OK
 				if !operated {
 					if d := diffSnap(p, sn); d != "" {
 						what := "isolation"
@@ -570,6 +608,7 @@ func snapViewRaw(s *Snap, bodies map[uint64]*BodyObs, svs map[uint64]*SVObs) map
 }
 
 func main() {
+	dvh.MaybeChild()
 	probeN := 0
 	adversarial = os.Getenv("C08_ADV")
 	if os.Getenv("C08_SHOW") != "" {
@@ -594,14 +633,31 @@ func main() {
 		master := lib.NewRand(o.Seed)
 		for k := 0; k < probeN; k++ {
 			rng := lib.NewRand(master.U64())
-			h := genHistory(rng, k, o.Thorough())
-			h.Cache = k >= probeN/2
+			var h *History
+			if o.Replay != "" {
+				h = &History{}
+				if err := lib.LoadReplay(o.Replay, h); err != nil {
+					fmt.Println(err)
+					os.Exit(2)
+				}
+			} else if os.Getenv("C08_CHAIN") != "" {
+				h = genChainHistory(rng, k)
+			} else {
+				h = genHistory(rng, k, o.Thorough())
+				h.Cache = k >= probeN/2
+			}
 			e, err := newExec(h)
 			if err != nil {
 				fmt.Println("setup:", err)
 				os.Exit(2)
 			}
-			driveGenerated(e, rng)
+			if o.Replay != "" {
+				e.run()
+			} else if h.Child {
+				driveChain(e, rng)
+			} else {
+				driveGenerated(e, rng)
+			}
 			errs := e.probe()
 			sort.SliceStable(errs, func(i, j int) bool {
 				return !strings.Contains(errs[i], "maxlabel") && strings.Contains(errs[j], "maxlabel")
@@ -617,6 +673,10 @@ func main() {
 					}
 					fmt.Println()
 				}
+			}
+			if os.Getenv("C08_DUMP") != "" {
+				js, _ := json.Marshal(map[string]interface{}{"case": h})
+				os.WriteFile(fmt.Sprintf("%s/h%d.json", os.Getenv("C08_DUMP"), k), js, 0644)
 			}
 			if len(errs) > 0 {
 				bad++
@@ -634,6 +694,7 @@ func main() {
 				}
 			}
 		}
+		stopChild()
 		fmt.Printf("probe: %d histories, %d with problems\n", probeN, bad)
 		return
 	}
